@@ -1,5 +1,6 @@
 //! Shared harness glue between the explorer binaries and lexical's public API.
 pub mod common;
 pub mod floatfam;
+pub mod fmtcat;
 pub mod intglue;
 pub mod valfam;
